@@ -77,6 +77,10 @@ Fixpoint py_zip_strict {A B} (a : list A) (b : list B) : result (list (A * B)) :
 (* x is None, for an Optional value *)
 Definition py_is_none {A} (o : option A) : bool := match o with None => true | Some _ => false end.
 
+(* a, b = l : ValueError unless l has exactly two elements *)
+Definition py_unpack2 {A} (l : list A) : result (A * A) :=
+  match l with [x; y] => Ret (x, y) | _ => Raise ValueError 0 end.
+
 (* first, *rest = l : raises ValueError ("not enough values to unpack") on an empty l *)
 Definition py_uncons {A} (l : list A) : result (A * list A) :=
   match l with [] => Raise ValueError 0 | x :: r => Ret (x, r) end.
